@@ -44,15 +44,32 @@ func loadTestdata(t testing.TB) map[string]*testCase {
 // TestInterpreterOnTestdata: every hand-written case compiles, is interpreted
 // without leaving the subset, raises exactly the expected kinds of events and
 // is deterministic.
+//
+// The trigger cases (expect_events) describe the pinned tree: once a checker
+// defect is repaired in the tree under test the program is rejected or the
+// event no longer fires, which is reported but is not a failure. At least
+// half of them must still fire, or the monitors themselves are broken.
 func TestInterpreterOnTestdata(t *testing.T) {
+	triggers, fired := 0, 0
+	defer func() {
+		t.Logf("%d of %d trigger cases fired", fired, triggers)
+		if triggers > 0 && fired*2 < triggers {
+			t.Errorf("only %d of %d trigger cases fired", fired, triggers)
+		}
+	}()
 	for name, tc := range loadTestdata(t) {
+		if len(tc.ExpectEvents) > 0 {
+			triggers++
+		}
 		p, rej, err := Compile(&tc.Case)
 		if err != nil {
 			t.Errorf("%s: Compile: %v", name, err)
 			continue
 		}
 		if p == nil {
-			if !tc.ExpectRejected {
+			if len(tc.ExpectEvents) > 0 {
+				t.Logf("%s: trigger case is rejected by this tree (repaired?): %s", name, rej)
+			} else if !tc.ExpectRejected {
 				t.Errorf("%s: rejected: %s", name, rej)
 			}
 			continue
@@ -67,10 +84,15 @@ func TestInterpreterOnTestdata(t *testing.T) {
 			got[e.Prop+":"+e.Kind] = true
 			got[fmt.Sprintf("%s:%s@%d", e.Prop, e.Kind, e.Line)] = true
 		}
+		missing := false
 		for _, w := range tc.ExpectEvents {
 			if !got[w] {
-				t.Errorf("%s: missing event %s (have %v)", name, w, got)
+				missing = true
+				t.Logf("%s: trigger event %s did not fire on this tree (have %v)", name, w, got)
 			}
+		}
+		if len(tc.ExpectEvents) > 0 && !missing {
+			fired++
 		}
 		if len(tc.ExpectEvents) == 0 && len(out.Events) > 0 {
 			t.Errorf("%s: unexpected event %+v", name, out.Events[0])
@@ -230,5 +252,27 @@ func BenchmarkInterpret(b *testing.B) {
 	b.ResetTimer()
 	for i := 0; i < b.N; i++ {
 		p.Interpret(&tc.Case)
+	}
+}
+
+func TestCGenIssues(t *testing.T) {
+	want := map[string]string{
+		"t12_cgen_invalid_c":               "pub-func-returning-bool",
+		"t13_cgen_sat_small_int":           "binary-sat-on-small-integer",
+		"t14_cgen_checked_arg_with_result": "pub-noncoroutine-result-with-checked-arg",
+	}
+	for name, tc := range loadTestdata(t) {
+		p, _, _ := Compile(&tc.Case)
+		if p == nil {
+			continue
+		}
+		got := p.CGenIssues()
+		if w, ok := want[name]; ok {
+			if len(got) != 1 || got[0] != w {
+				t.Errorf("%s: CGenIssues = %v, want [%s]", name, got, w)
+			}
+		} else if len(got) != 0 {
+			t.Errorf("%s: unexpected CGenIssues %v", name, got)
+		}
 	}
 }
